@@ -570,6 +570,12 @@ def step (s : State) (toks : List String) : State × String :=
     match k.toNat?, x.toNat?, find s n with
     | some k, some x, some c => ok s (ext c (.emit k 0 x))
     | _, _, _ => (s, "bad-op")
+  | ["emitempty", n] =>
+    -- a message whose encoding has no bytes: a value of channel 0 like any other (a client decodes the
+    -- zero value); `outChan` carries byte slices, an empty one is not the closed channel
+    match find s n with
+    | some c => ok s (ext c (.emit 0 0 0))
+    | none => (s, "bad-op")
   | ["emitbig", n, k, x, _kb] =>
     -- a big message: the size is the transport's business, nothing of onet's depends on it
     match k.toNat?, x.toNat?, find s n with
